@@ -269,6 +269,18 @@ def oracle(case):
     write_pdb(df_p, buf)
     if buf.getvalue() != t:
         out.append(D("C09:write_pdb:file-object-differs", "write_pdb(df, file) differs from write_pdb(df)"))
+    # ... and a buffer that was just written is read back as it stands (its cursor at the end, as after writing)
+    if not out and not case.get("big"):
+        for tag, writer, reader, df in (("pdb", write_pdb, parse_pdb_atoms, df_p), ("cif", write_cif, parse_cif_atoms, df_c)):
+            b2 = io.StringIO()
+            writer(df, b2)
+            try:
+                back2 = logical(reader(b2))
+            except Exception as e:
+                from rnaverif.runner import sut_location
+                out.append(D(f"C09:{tag}-buffer:raises:{type(e).__name__}@{sut_location(e.__traceback__)}", f"reading the buffer just written: {type(e).__name__}: {str(e)[:120]}"))
+                continue
+            out += diff_tables(f"{tag}->buffer->{tag}", atoms, back2, single)
     seen, res = set(), []
     for d in out:
         if d.sig not in seen:
